@@ -15,7 +15,7 @@ CHECKS = {
             "parent merges limited to one fork-merge inside a branch; reporting for a branch whose first shipping build belongs to a lower-sorted branch is not asserted", "DESIGN.md 3/C07"),
     "C06": ("XH", "CrossHair-driven enumeration of commit-graph shapes and branch-head positions (z3 choice variables) with native sweeps over ALL placements of build tags and matching messages; "
             "stub git repository; reachability oracle from the statement; BranchName order checked symbolically for all non-negative ints",
-            "bounded exhaustive exploration with exhaustion certificate: 16 graph shapes of <= 6 commits x every release-head position x all 2^n tag subsets x all matching subsets x 3 commit spacings (60 s / 2 days / 4.6 days); "
+            "bounded exhaustive exploration with exhaustion certificate: 17 graph shapes of <= 6 commits x every release-head position x all 2^n tag subsets x all matching subsets x 3 commit spacings (60 s / 2 days / 4.6 days); "
             "symbolic (unbounded ints) total-order check of branch names incl. prefix-first for names of different length",
             "git repository stubbed in memory; commit times strictly increasing along history", "DESIGN.md 3/C06"),
     "C10": ("XH", "CrossHair-driven enumeration of rendering histories (z3 choice variables for the first step, native sweep of the rest) over long-lived printable objects, with id() as seen by ak.ppobj "
